@@ -1,7 +1,7 @@
 (* C04: bytes written as one type are never accepted as a different type. *)
 Require Import EV.Base.Tac EV.Base.Bytes EV.Base.Res EV.Base.ListX.
 Require Import EV.Model.Arith64 EV.Model.Types EV.Model.Layout EV.Model.Ser EV.Model.Deser EV.Model.Header EV.Model.Typing EV.Model.Hash.
-Require Import EV.Proofs.Monads EV.Proofs.HeaderRT EV.Proofs.HeaderSpec EV.Proofs.HashRefuse EV.Proofs.HashP.
+Require Import EV.Proofs.Monads EV.Proofs.HeaderRT EV.Proofs.HeaderSpec EV.Proofs.HashRefuse EV.Proofs.HashP EV.Proofs.HashInj.
 
 (* For every 64-bit hash function H of the byte feeds: bytes serialized as T are refused when
    read as U -- by both deserializers, for every base address, with the type-hash error (or, the
@@ -90,8 +90,24 @@ Lemma C04_refuted_const_bytes :
   tfeed d12_enum = tfeed d12_struct /\ align_feed d12_enum = align_feed d12_struct.
 Proof. exact feed_not_injective_consts. Qed.
 
+(* On the fragment of the grammar without tuples and derived types (primitives, unit, PhantomData,
+   strings, vectors, boxed slices, slices, iterator wrappers, arrays, Option, Bound, ControlFlow, the
+   range types) the type-hash feed is uniquely decodable: equal feeds mean the same type up to the
+   documented equivalence (&[T] and SerIter are hashed as Vec<T>).  General injectivity is false
+   because of tuples (D11) and const parameters (D12), see the two refutations above. *)
+Theorem C04_builtin_feeds_are_uniquely_decodable :
+  forall t1 t2 r1 r2, builtin t1 = true -> builtin t2 = true ->
+    tfeed t1 ++ r1 = tfeed t2 ++ r2 -> hcanon t1 = hcanon t2 /\ r1 = r2.
+Proof. exact tfeed_prefix_free. Qed.
+
+Theorem C04_builtin_feeds_injective :
+  forall t1 t2, builtin t1 = true -> builtin t2 = true -> tfeed t1 = tfeed t2 -> hcanon t1 = hcanon t2.
+Proof. exact tfeed_injective_on_builtins. Qed.
+
 Print Assumptions C04_cross_read_refused.
 Print Assumptions C04_field_renamed.
 Print Assumptions C04_primitives_apart.
 Print Assumptions C04_repr_attributes.
 Print Assumptions C04_tuple_arity.
+Print Assumptions C04_builtin_feeds_are_uniquely_decodable.
+Print Assumptions C04_builtin_feeds_injective.
